@@ -348,7 +348,7 @@ Section Frame.
     (j < List.length (pl w))%nat -> target o <> Some j ->
     nth j (pl (fst (stepi w o))) (Run.dummy, dummy_it) = nth j (pl w) (Run.dummy, dummy_it).
   Proof.
-    intros Hj Ht. destruct o as [o|i p1 p2].
+    intros Hj Ht. destruct o as [o|i p1 p2|i p].
     - destruct o; cbn [stepi target] in *.
       + unfold push. destruct (fresh_like a (nxt w)). simpl. apply nth_app_old. exact Hj.
       + unfold geti. destruct (nth i (pl w) (Run.dummy, dummy_it)) as [a t].
@@ -377,6 +377,8 @@ Section Frame.
       + reflexivity.
     - cbn [stepi target] in *. unfold geti. destruct (nth i (pl w) (Run.dummy, dummy_it)) as [a t].
       destruct (sub_agg a p1), (sub_it t p1); try reflexivity. simpl. apply nth_seti. congruence.
+    - cbn [stepi target] in *. unfold geti. destruct (nth i (pl w) (Run.dummy, dummy_it)) as [a t].
+      destruct (sub_agg a p), (sub_it t p); try reflexivity. simpl. apply nth_app_old. exact Hj.
   Qed.
 
   (* += and fill keep the identity of the object they are applied to *)
